@@ -54,9 +54,17 @@ def invariants(canon, studies=('s',)):
       if t['state'] == 'REQUESTED' and t['client']:
         bad.append(('requested-unowned', 'REQUESTED trial %s has client_id %r' % (t['id'], t['client'])))
   for s, c, ops in d['ops']:
+    for o in ops:
+      o = dict(o)
+      if not o['done']:
+        bad.append(('quiescent-suggest-op', 'suggestion operation %s is left not done' % o['name']))
     nums = sorted(int(dict(o)['name'].rsplit('/', 1)[1]) for o in ops)
     if nums != list(range(1, len(nums) + 1)):
       bad.append(('op-numbering', 'operations of %s/%s numbered %s' % (s, c, nums)))
+  for e in d['es']:
+    e = dict(e)
+    if e['status'] == 'ACTIVE':
+      bad.append(('quiescent-earlystop-op', 'early-stopping operation %s is left ACTIVE' % e['name']))
   return bad
 
 
@@ -163,6 +171,7 @@ class ServiceSystem:
     pres = self.canons()
     now0 = svc.CLOCK.now
     outs = []
+    calls_before = [b.env.stop_calls + b.env.factory_calls for b in self.bs]
     for b in self.bs:
       svc.CLOCK.now = now0
       outs.append(svc.apply(b, a))
@@ -174,13 +183,33 @@ class ServiceSystem:
         if kind == 'Restart' and pre != post:
           vios.append(self.v('restart-preserves-state', kind, pre, 'stored data changed across a server restart', b.kind))
       return vios
-    for b, pre, post, (cls, view, raw) in zip(self.bs, pres, posts, outs):
-      if cls.startswith('EXC:'):
+    env = svc.env_of(a)
+    scripted_failure = bool(env.get('fail_suggest') or env.get('fail_stop') or env.get('fail_factory'))
+    if env.get('md_trials') and not scripted_failure:
+      ids0 = {t['id'] for t in (trials_of(pres[0], a[1]) or [])}
+      scripted_failure = any(str(tid) not in ids0 for tid, _, _, _ in env['md_trials'])
+    for b, pre, post, (cls, view, raw), calls0 in zip(self.bs, pres, posts, outs, calls_before):
+      if cls.startswith('EXC:') and not scripted_failure:
         vios.append(self.v('undocumented-exception', kind, pre, '%s raised %s: %s' % (kind, cls[4:], str(raw)[:120]), b.kind))
-      for clause, text in transition_oracle(pre, post, cls, kind, self.studies):
+      for clause, text in transition_oracle(pre, post, 'OK' if scripted_failure else cls, kind, self.studies):
         vios.append(self.v(clause, kind, pre, text, b.kind))
       for clause, text in invariants(post, self.studies):
         vios.append(self.v(clause, kind, pre, text, b.kind))
+      if kind == 'CheckTrialEarlyStoppingState' and (cls == 'OK' or scripted_failure):
+        # the algorithm must be consulted exactly when no recent answer is stored for this trial
+        s_ = a[1]
+        name = svc.resources.EarlyStoppingOperationResource('o', s_, a[2]).name
+        rec = [dict(e) for e in dict(pre)['es'] if dict(e)['name'] == name]
+        tr = [t for t in (trials_of(pre, s_) or []) if t['id'] == str(a[2])]
+        st = study_of(pre, s_)
+        legal = bool(tr) and tr[0]['state'] in ('ACTIVE', 'STOPPING') and st and st['state'] in ('ACTIVE', 'STATE_UNSPECIFIED')
+        if legal:
+          expect = 0 if (rec and rec[0]['fresh'] and rec[0]['status'] == 'DONE') else 1
+          got = (b.env.stop_calls + b.env.factory_calls) - calls0
+          if (got > 0) != (expect > 0):
+            vios.append(self.v('earlystop-reaches-algorithm', kind, pre,
+                               'early-stopping check %s the algorithm (stored record: %s)' % (
+                                   'did not reach' if expect else 'unexpectedly reached', rec[0] if rec else None), b.kind))
     if len(self.bs) > 1 and self.cfg.get('differential', True):
       for i in range(1, len(self.bs)):
         who = '%s-vs-%s' % (self.bs[0].kind, self.bs[i].kind)
@@ -198,12 +227,7 @@ class ServiceSystem:
     if self.model is not None:
       b, pre, post, (cls, view, raw) = self.bs[0], pres[0], posts[0], outs[0]
       try:
-        s = a[1] if len(a) > 1 and isinstance(a[1], str) else 's'
-        pt = None
-        for name, ts in dict(post)['trials']:
-          if name == s:
-            pt = ts
-        m2 = self.model.step(a, cls, view, pt)
+        m2 = self.model.step(a, cls, view, post)
         pd = dict(post)
         if m2.canon(self.studies) != (pd['studies'], pd['trials']):
           vios.append(self.v('model-state', kind, pre, 'stored study/trials differ from the reference model after %s' % kind, b.kind,
